@@ -60,6 +60,11 @@ class Interp:
             c = fr.locals.get(p[1])
             if c is None:
                 c = fr.locals[p[1]] = Cell()
+                t = fr.fn.locals.get(p[1]) or ""
+                if t.startswith("{closure@"):
+                    # a capture-less closure is a zero-sized value that MIR never assigns
+                    f = fr.fn.closures.get(t) or self.P.closures.get(t)
+                    if f is not None: c.v = Closure(f, [])
             return c
         if k == "deref":
             v = self.place(fr, p[1])
@@ -578,6 +583,7 @@ class Interp:
                 if d is not None and last in d.index:
                     return EnumV(d, last, [Cell(a) for a in args])
             return self.call(f.path, list(args), fake)
+        if isinstance(f, Ptr): return self.call_value(f.cell.v, args)       # Box<dyn Fn..> / Arc<dyn Fn..>
         raise Unmodelled("call of " + type(f).__name__)
 
 
